@@ -1,11 +1,18 @@
+"""Operator-mutation sweep: every single-token mutant (comparison / boolean / set operators, sibling helpers, 0 <-> 1, True <-> False, swapped indices, dropped `not` / `.copy()`)
+of the named functions is run against one check on a scratch copy; prints each mutant with the check's exit status.  Exit-0 mutants are to be triaged by hand: equivalent, or a gap.
+
+    tools/mutation_sweep.py <property> <file relative to /repo> <function> [<function> ...]
+"""
 import re, os, subprocess, sys, shutil, json
 from concurrent.futures import ThreadPoolExecutor
-src = open('/repo/sempler/utils.py').read().split('\n')
+FILE = sys.argv[2]
+src = open('/repo/' + FILE).read().split('\n')
 def frange(name):
-    s = next(i for i,l in enumerate(src) if l.startswith('def %s(' % name))
-    e = next(i for i in range(s+1, len(src)) if src[i].startswith('def ') or src[i].startswith('# ----'))
+    s = next(i for i,l in enumerate(src) if l.lstrip().startswith('def %s(' % name))
+    ind = len(src[s]) - len(src[s].lstrip())
+    e = next((i for i in range(s+1, len(src)) if src[i].strip() and not src[i].lstrip().startswith('#') and len(src[i]) - len(src[i].lstrip()) <= ind and not src[i].lstrip().startswith(')')), len(src))
     return s, e
-funcs = sys.argv[2:]
+funcs = sys.argv[3:]
 SWAPS = [(r' == ', ' != '), (r' != ', ' == '), (r' <= ', ' < '), (r' < ', ' <= '), (r' >= ', ' > '), (r' > ', ' >= '), (r' and ', ' or '), (r' or ', ' and '),
          (r'\bch\(', 'pa('), (r'\bpa\(', 'ch('), (r'\bneighbors\(', 'adj('), (r'\badj\(', 'neighbors('), (r' & ', ' | '), (r' \| ', ' & '), (r' - \{', ' | {'),
          (r'= 0$', '= 1'), (r'= 1$', '= 0'), (r'\bTrue\b', 'False'), (r'\bFalse\b', 'True'), (r'\bnot ', ''), (r'>= 2', '>= 1'), (r'>= 2', '>= 3'), (r'\bi, j\b', 'j, i'), (r'\[j, i\]', '[i, j]'), (r'\[i, j\]', '[j, i]'),
@@ -31,7 +38,7 @@ def run(k):
     shutil.rmtree(d, ignore_errors=True); os.makedirs(d + '/sempler'); 
     subprocess.run('git -C /repo archive HEAD sempler drf | tar -x -C %s' % d, shell=True)
     t = list(src); t[ln] = nl
-    open(d + '/sempler/utils.py', 'w').write('\n'.join(t))
+    open(d + '/' + FILE, 'w').write('\n'.join(t))
     try:
         compile('\n'.join(t), 'u', 'exec')
     except SyntaxError:
